@@ -304,6 +304,9 @@ impl Subject for XSubject {
             plain_ok = false;
         }
         o.m.customs.add(Spy { ask: ask.clone(), out: out.clone() });
+        // a second consumer: every custom section must see the same, complete map
+        let out2 = Arc::new(Mutex::new(vec![]));
+        o.m.customs.add(Spy { ask: ask.clone(), out: out2.clone() });
         let bytes = match std::panic::catch_unwind(std::panic::AssertUnwindSafe(|| o.m.emit_wasm())) {
             Ok(b) => b,
             Err(p) => {
@@ -319,6 +322,9 @@ impl Subject for XSubject {
             Err(_) => return (wmodel::fnv(&bytes), fs),
         };
         let answers = out.lock().unwrap().clone();
+        if answers != *out2.lock().unwrap() {
+            fs.push(Finding { sig: "emit-map:sections-see-different-maps".into(), detail: format!("after {:?}: two custom sections asked the same questions while serialising and got different answers", hist) });
+        }
         if answers.len() != ask.len() {
             fs.push(Finding { sig: "emit-map:spy-not-run".into(), detail: format!("after {:?}: the custom section was asked to serialise {} times the expected answers", hist, answers.len()) });
         }
